@@ -29,20 +29,7 @@ pub fn c05_layout() {
     let c = any_valid_cell_res(-1, 29);
     let id = ser(&c);
     let r = c.resolution;
-    let spec: u64 = if r == -1 {
-        0
-    } else if r == 0 {
-        ((c.origin_id as u64) << 58) | (1u64 << 57)
-    } else {
-        let code =
-            5 * (c.origin_id as u64) + ((c.segment + 5 - QF[c.origin_id as usize]) % 5) as u64;
-        if r == 1 {
-            (code << 58) | (1u64 << 56)
-        } else {
-            let l = (r - 1) as u32;
-            (code << 58) | (c.s << (58 - 2 * l)) | (1u64 << (57 - 2 * l))
-        }
-    };
+    let spec: u64 = layout_bits(&c);
     assert!(id == spec);
     // "then zeros": nothing below the marker
     assert!(spec_valid(id));
